@@ -13,10 +13,21 @@ from enum import Enum
 
 import pandas as pd
 from particle import SpinType
-from particle.particle.utilities import programmatic_name
+from particle.particle.utilities import programmatic_name as _programmatic_name
 
 from ..utils import LineFailure
 from .amplitudechain import LS, AmplitudeChain
+
+
+def programmatic_name(name: str) -> str:
+    """
+    Name safe to use as a variable name. Recent versions of ``particle``
+    require to be told whether the name is that of a nucleus (never the case here).
+    """
+    try:
+        return _programmatic_name(name, False)  # type: ignore[call-arg]
+    except TypeError:
+        return _programmatic_name(name)  # type: ignore[call-arg]
 
 
 class SF_4Body(Enum):
